@@ -215,3 +215,422 @@ Proof.
   apply sp_find_in in E as [_ Hk]. unfold keep. rewrite Hk.
   destruct (kmem k ks); cbn [negb]; [cbn; rewrite andb_false_r; reflexivity|rewrite andb_true_r; reflexivity].
 Qed.
+
+(** ** DeleteRange *)
+From Coq Require Import ZifyBool.
+
+Definition covers (l : list trange) (t : Z) : bool := existsb (in_range t) l.
+Fixpoint tdom (k : key) (m : tombs) : bool :=
+  match m with [] => false | (k', _) :: r => keqb k' k || tdom k r end.
+Fixpoint tnodup (m : tombs) : Prop :=
+  match m with [] => True | (k, _) :: r => tdom k r = false /\ tnodup r end.
+
+Lemma keqb_trans_false a b c : keqb a b = true -> keqb a c = false -> keqb b c = false.
+Proof. intros H1 H2. apply keqb_eq in H1. subst. exact H2. Qed.
+
+Lemma tomb_get_set k k' v m : tomb_get k (tomb_set k' v m) = if keqb k' k then v else tomb_get k m.
+Proof.
+  induction m as [|[k0 v0] r IH]; cbn [tomb_set tomb_get]; [reflexivity|].
+  destruct (keqb k0 k') eqn:E0; cbn [tomb_get].
+  - apply keqb_eq in E0. subst k0. destruct (keqb k' k); reflexivity.
+  - rewrite IH. destruct (keqb k0 k) eqn:E1; [|reflexivity].
+    apply keqb_eq in E1. subst k0. rewrite keqb_sym, E0. reflexivity.
+Qed.
+
+Lemma tdom_set k k' v m : tdom k (tomb_set k' v m) = keqb k' k || tdom k m.
+Proof.
+  induction m as [|[k0 v0] r IH]; cbn [tomb_set tdom]; [reflexivity|].
+  destruct (keqb k0 k') eqn:E0; cbn [tdom].
+  - apply keqb_eq in E0. subst k0. destruct (keqb k' k); reflexivity.
+  - rewrite IH. destruct (keqb k0 k), (keqb k' k); reflexivity.
+Qed.
+
+Lemma tdom_false_get k m : tdom k m = false -> tomb_get k m = [].
+Proof.
+  induction m as [|[k0 v0] r IH]; cbn [tdom tomb_get]; [reflexivity|].
+  intro H. apply orb_false_iff in H as [H1 H2]. rewrite H1. apply IH; exact H2.
+Qed.
+
+Lemma tnodup_set k v m : tnodup m -> tnodup (tomb_set k v m).
+Proof.
+  induction m as [|[k0 v0] r IH]; cbn [tomb_set tnodup]; intro H; [auto|].
+  destruct H as [H1 H2]. destruct (keqb k0 k) eqn:E0; cbn [tnodup]; [auto|].
+  split; [|apply IH; exact H2]. rewrite tdom_set, H1. rewrite keqb_sym, E0. reflexivity.
+Qed.
+
+Definition fold_set (upd m : tombs) : tombs := fold_left (fun m kv => tomb_set (fst kv) (snd kv) m) upd m.
+
+Lemma fold_set_get upd : tnodup upd -> forall m k,
+  tomb_get k (fold_set upd m) = if tdom k upd then tomb_get k upd else tomb_get k m.
+Proof.
+  unfold fold_set. induction upd as [|[k0 v0] r IH]; intros Hn m k; [reflexivity|].
+  destruct Hn as [H1 H2]. cbn [fold_left fst snd tdom tomb_get]. rewrite IH by exact H2.
+  rewrite tomb_get_set. destruct (keqb k0 k) eqn:E0; cbn [orb].
+  - apply keqb_eq in E0. subst k0. rewrite H1. reflexivity.
+  - destruct (tdom k r); reflexivity.
+Qed.
+
+(** sorting the ranges keeps the set and orders it by Min *)
+Fixpoint trs_sorted (l : list trange) : Prop :=
+  match l with [] => True | x :: r => (forall y, In y r -> (fst x <= fst y)%Z) /\ trs_sorted r end.
+
+Lemma ins_tr_in a l y : In y (ins_tr a l) <-> y = a \/ In y l.
+Proof.
+  induction l as [|x r IH]; cbn [ins_tr]; [cbn; intuition|].
+  destruct (tr_le a x); cbn [In]; [intuition|]. rewrite IH. intuition.
+Qed.
+
+Lemma ins_tr_sorted a l : trs_sorted l -> trs_sorted (ins_tr a l).
+Proof.
+  induction l as [|x r IH]; intro Hs; cbn [ins_tr]; [cbn; split; [intros ? []|exact I]|].
+  destruct Hs as [Hx Hs]. destruct (tr_le a x) eqn:E; unfold tr_le in E.
+  - split; [|split; assumption]. intros y [<-|Hy]; [|specialize (Hx y Hy)]; destruct (Z.eqb_spec (fst a) (fst x)); lia.
+  - split; [|apply IH; exact Hs]. intros y Hy. apply ins_tr_in in Hy as [->|Hy]; [|apply Hx; exact Hy].
+    destruct (Z.eqb_spec (fst a) (fst x)); lia.
+Qed.
+
+Lemma sort_tr_in l y : In y (sort_tr l) <-> In y l.
+Proof.
+  unfold sort_tr. induction l as [|x r IH]; cbn [fold_right]; [reflexivity|].
+  rewrite ins_tr_in, IH. cbn. intuition.
+Qed.
+Lemma sort_tr_sorted l : trs_sorted (sort_tr l).
+Proof. unfold sort_tr. induction l as [|x r IH]; cbn [fold_right]; [exact I|]. apply ins_tr_sorted; exact IH. Qed.
+
+Lemma existsb_in_iff {A} (f : A -> bool) a b : (forall y, In y a <-> In y b) -> existsb f a = existsb f b.
+Proof.
+  intro H. destruct (existsb f a) eqn:Ea, (existsb f b) eqn:Eb; auto.
+  - apply existsb_exists in Ea as [x [Hx Hf]]. apply H in Hx.
+    assert (existsb f b = true) by (apply existsb_exists; eauto). congruence.
+  - apply existsb_exists in Eb as [x [Hx Hf]]. apply H in Hx.
+    assert (existsb f a = true) by (apply existsb_exists; eauto). congruence.
+Qed.
+
+Lemma covers_sort l t : covers (sort_tr l) t = covers l t.
+Proof. apply existsb_in_iff. intro; apply sort_tr_in. Qed.
+Lemma covers_app a b t : covers (a ++ b) t = covers a t || covers b t.
+Proof. apply existsb_app. Qed.
+
+(** the coalescing window only ever covers times that some range covers *)
+Lemma coalesce_cover l : forall prev mn mx seen,
+  (forall t, in_i64 t -> (mn <= t <= mx)%Z -> covers seen t = true) ->
+  (snd prev <= mx)%Z -> (forall y, In y l -> (mn <= fst y)%Z) ->
+  forall t, in_i64 t ->
+    (fst (coalesce prev mn mx l) <= t <= snd (coalesce prev mn mx l))%Z -> covers (seen ++ l) t = true.
+Proof.
+  induction l as [|ts r IH]; intros prev mn mx seen Hseen Hprev Hmn t Ht Hw; cbn [coalesce] in Hw.
+  - rewrite app_nil_r. apply Hseen; assumption.
+  - destruct (negb (snd prev =? dec64 (fst ts))%Z && negb (tr_overlaps prev (fst ts) (snd ts))) eqn:Eab.
+    + cbn [fst snd] in Hw. unfold MaxInt64, MinInt64 in Hw. lia.
+    + replace (seen ++ ts :: r) with ((seen ++ [ts]) ++ r) by (rewrite <- app_assoc; reflexivity).
+      assert (Hmn' : Z.min mn (fst ts) = mn) by (specialize (Hmn ts (or_introl eq_refl)); lia).
+      rewrite Hmn' in Hw.
+      apply (IH ts mn (Z.max mx (snd ts)) (seen ++ [ts])); auto; try lia.
+      * intros u Hu Hr. rewrite covers_app.
+        destruct (Z.leb_spec u mx) as [Hle|Hgt]; [rewrite Hseen by (auto; lia); reflexivity|].
+        apply orb_true_iff; right. cbn. rewrite orb_false_r. unfold in_range.
+        assert (Hlo : (fst ts <= u)%Z).
+        { apply andb_false_iff in Eab as [E|E]; apply negb_false_iff in E.
+          - apply Z.eqb_eq in E. unfold dec64 in E. unfold in_i64, MaxInt64, MinInt64 in *.
+            destruct (Z.eqb_spec (fst ts) (-9223372036854775808)); lia.
+          - unfold tr_overlaps in E. lia. }
+        lia.
+      * intros y Hy. apply Hmn. right; exact Hy.
+Qed.
+
+Lemma window_cover l t : trs_sorted l -> in_i64 t ->
+  (fst (window l) <= t <= snd (window l))%Z -> covers l t = true.
+Proof.
+  intros Hs Ht Hw. destruct l as [|r0 r]; cbn [window] in Hw.
+  - cbn [fst snd] in Hw. unfold MaxInt64, MinInt64 in Hw. lia.
+  - destruct Hs as [H0 Hs].
+    apply (coalesce_cover r r0 (fst r0) (snd r0) [r0]); auto; try lia.
+    intros u _ Hu. cbn. unfold in_range. rewrite orb_false_r. lia.
+Qed.
+
+(** per-key facts *)
+Definition hits (ik : ikey) (t : Z) : bool := existsb (fun e => e_contains e t) (ik_ents ik).
+Definition dead (old : tombs) (ik : ikey) (lo hi : Z) : Prop :=
+  forall t, in_i64 t -> hits ik t = true ->
+    in_range t (lo, hi) || covers (tomb_get (ik_key ik) old) t = true.
+
+Lemma hits_span ik t : wf_ents ik -> hits ik t = true -> (first_min ik <= t <= last_max ik)%Z.
+Proof.
+  intros [_ Hb] H. unfold hits in H. apply existsb_exists in H as [e [He Hc]].
+  specialize (Hb e He). unfold e_contains in Hc. lia.
+Qed.
+
+Lemma dr_key_spec old upd ik lo hi isfull upd1 :
+  wf_ents ik -> tdom (ik_key ik) upd = false -> dr_key old upd ik lo hi = (isfull, upd1) ->
+  (forall k', keqb (ik_key ik) k' = false -> tdom k' upd1 = tdom k' upd /\ tomb_get k' upd1 = tomb_get k' upd) /\
+  (isfull = true -> dead old ik lo hi) /\
+  ((upd1 = upd /\ (isfull = false -> forall t, hits ik t = true -> in_range t (lo, hi) = false))
+   \/ (tdom (ik_key ik) upd1 = true /\
+       forall t, covers (tomb_get (ik_key ik) upd1) t = covers (tomb_get (ik_key ik) old) t || in_range t (lo, hi))).
+Proof.
+  intros Hwf Hdom. pose proof (hits_span ik) as Hspan. unfold dr_key, first_min in *.
+  destruct Hwf as [Hne Hb]. destruct (ik_ents ik) as [|e0 er] eqn:Ee; [congruence|].
+  set (mn := emin e0) in *. set (mx := last_max ik) in *.
+  assert (Hsp : forall t, hits ik t = true -> (mn <= t <= mx)%Z).
+  { intros t Ht. apply Hspan; [|exact Ht]. split; [rewrite Ee; discriminate|]. rewrite Ee. exact Hb. }
+  destruct ((lo >? mx)%Z || (hi <? mn)%Z) eqn:Eout.
+  { intro E; inversion E; subst. repeat split; auto; [discriminate|].
+    left. split; [reflexivity|]. intros _ t Ht. specialize (Hsp t Ht). unfold in_range; cbn [fst snd]. lia. }
+  destruct ((lo <=? mn)%Z && (mx <=? hi)%Z) eqn:Ecov.
+  { intro E; inversion E; subst. repeat split; auto.
+    - intros _ t _ Ht. specialize (Hsp t Ht). unfold in_range; cbn [fst snd]. apply orb_true_iff; left. lia.
+    - left. split; [reflexivity|discriminate]. }
+  rewrite (tdom_false_get _ _ Hdom). cbn [app].
+  set (newTs := sort_tr (tomb_get (ik_key ik) old ++ [(lo, hi)])).
+  destruct (window newTs) as [wmn wmx] eqn:Ew.
+  intro E; inversion E; subst isfull upd1; clear E.
+  assert (Hcov : forall t, covers newTs t = covers (tomb_get (ik_key ik) old) t || in_range t (lo, hi)).
+  { intro t. unfold newTs. rewrite covers_sort, covers_app. cbn. rewrite orb_false_r. reflexivity. }
+  repeat split.
+  - rewrite tdom_set, H. reflexivity.
+  - rewrite tomb_get_set, H. reflexivity.
+  - intros Hfull t Ht Hh. specialize (Hsp t Hh). rewrite orb_comm, <- Hcov.
+    apply window_cover; [apply sort_tr_sorted|exact Ht|]. rewrite Ew. cbn [fst snd]. lia.
+  - right. split; [rewrite tdom_set, keqb_refl; reflexivity|].
+    intro t. rewrite tomb_get_set, keqb_refl. apply Hcov.
+Qed.
+
+Lemma dr_key_nodup old upd ik lo hi : tnodup upd -> tnodup (snd (dr_key old upd ik lo hi)).
+Proof.
+  intro H. unfold dr_key. destruct (ik_ents ik); [exact H|].
+  destruct (_ || _); [exact H|]. destruct (_ && _); [exact H|].
+  destruct (window _). cbn [snd]. apply tnodup_set; exact H.
+Qed.
+
+Lemma drop_lt_incl ks x k : In k (drop_lt ks x) -> In k ks.
+Proof.
+  induction ks as [|y r IH]; cbn [drop_lt]; [auto|]. destruct (kltb y x); [right; auto|auto].
+Qed.
+
+Lemma kmem_incl k a b : (forall y, In y a -> In y b) -> kmem k a = true -> kmem k b = true.
+Proof. intros H Ha. apply kmem_in. apply H. apply kmem_in. exact Ha. Qed.
+
+Lemma ksorted_head_neq ik l' x : ksorted (ik :: l') -> In x l' -> keqb (ik_key ik) (ik_key x) = false.
+Proof. intros [Hx _] Hin. apply kltb_neq. apply Hx; exact Hin. Qed.
+
+Definition dr_post (old : tombs) (lo hi : Z) (l : list ikey) (ks : list key)
+           (full : list key) (upd : tombs) (full' : list key) (upd' : tombs) : Prop :=
+  tnodup upd' /\
+  (forall k, In k full -> In k full') /\
+  (forall k, In k full' -> In k full \/
+     (kmem k ks = true /\ exists ik, In ik l /\ ik_key ik = k /\ dead old ik lo hi)) /\
+  (forall k, (forall ik, In ik l -> keqb (ik_key ik) k = false) ->
+     tdom k upd' = tdom k upd /\ tomb_get k upd' = tomb_get k upd) /\
+  (forall ik, In ik l ->
+     (tdom (ik_key ik) upd' = false /\
+      (kmem (ik_key ik) ks = true -> ~ In (ik_key ik) full' ->
+       forall t, hits ik t = true -> in_range t (lo, hi) = false))
+     \/ (tdom (ik_key ik) upd' = true /\ kmem (ik_key ik) ks = true /\
+         forall t, covers (tomb_get (ik_key ik) upd') t
+                   = covers (tomb_get (ik_key ik) old) t || in_range t (lo, hi))).
+
+Lemma dr_post_stop old lo hi l ks full upd :
+  tnodup upd -> (forall x, In x l -> tdom (ik_key x) upd = false) ->
+  (forall x, In x l -> kmem (ik_key x) ks = false) ->
+  dr_post old lo hi l ks full upd full upd.
+Proof.
+  intros Hn Hd Hm. repeat split; auto.
+  intros ik Hin. left. split; [apply Hd; exact Hin|]. intro H. rewrite (Hm ik Hin) in H. discriminate.
+Qed.
+
+Lemma dr_walk_spec old lo hi l : forall ks full upd full' upd',
+  ksorted l -> kssorted ks -> Forall wf_ents l ->
+  (forall x, In x l -> tdom (ik_key x) upd = false) -> tnodup upd ->
+  dr_walk old l ks lo hi full upd = (full', upd') ->
+  dr_post old lo hi l ks full upd full' upd'.
+Proof.
+  induction l as [|ik l' IH]; intros ks full upd full' upd' Hs Hks Hwf Hd Hn Hrun.
+  { cbn in Hrun. inversion Hrun; subst. apply dr_post_stop; auto. intros ? []. }
+  cbn [dr_walk] in Hrun.
+  destruct ks as [|k0 ks0].
+  { inversion Hrun; subst. apply dr_post_stop; auto. }
+  set (ks := k0 :: ks0) in *.
+  assert (Hmem : forall x, In x (ik :: l') -> kmem (ik_key x) (drop_lt ks (ik_key ik)) = kmem (ik_key x) ks).
+  { intros x Hin. apply drop_lt_kmem. destruct Hin as [<-|Hin]; [apply kleb_refl|apply kltb_kleb, Hs, Hin]. }
+  pose proof (drop_lt_sorted ks (ik_key ik) Hks) as Hds.
+  pose proof (drop_lt_incl ks (ik_key ik)) as Hincl.
+  destruct (drop_lt ks (ik_key ik)) as [|k1 ks2] eqn:Ed.
+  { inversion Hrun; subst. apply dr_post_stop; auto. intros x Hin. rewrite <- Hmem by exact Hin. reflexivity. }
+  pose proof (drop_lt_head _ _ _ _ Ed) as Hh.
+  assert (Hs' : ksorted l') by apply Hs.
+  assert (Hwf' : Forall wf_ents l') by (inversion Hwf; assumption).
+  assert (Hwfik : wf_ents ik) by (inversion Hwf; assumption).
+  assert (Hneq : forall x, In x l' -> keqb (ik_key ik) (ik_key x) = false) by (intros; eapply ksorted_head_neq; eauto).
+  assert (Hneq' : forall x, In x l' -> keqb (ik_key x) (ik_key ik) = false) by (intros; rewrite keqb_sym; auto).
+  destruct (kltb (ik_key ik) k1) eqn:Elt.
+  - (* the batch has no entry for this index key *)
+    destruct (IH (k1 :: ks2) full upd full' upd' Hs' Hds Hwf' (fun x Hx => Hd x (or_intror Hx)) Hn Hrun)
+      as [P1 [P2 [P3 [P4 P5]]]].
+    split; [exact P1|]. split; [exact P2|]. split; [|split].
+    + intros k Hk. destruct (P3 k Hk) as [H|[Hm [x [Hx [Hxk Hdead]]]]]; [left; exact H|right].
+      split; [eapply kmem_incl; [exact Hincl|exact Hm]|]. exists x. split; [right; exact Hx|split; assumption].
+    + intros k Hk. apply P4. intros x Hx. apply Hk. right; exact Hx.
+    + intros x [<-|Hx].
+      * left. destruct (P4 (ik_key ik) Hneq') as [Q1 _]. split; [rewrite Q1; apply Hd; left; reflexivity|].
+        intro Hm. rewrite <- (Hmem ik (or_introl eq_refl)) in Hm. rewrite (kmem_above _ _ _ Hds Elt) in Hm. discriminate.
+      * rewrite <- (Hmem x (or_intror Hx)). apply P5; exact Hx.
+  - (* keys[0] = index key *)
+    assert (Ek1 : k1 = ik_key ik).
+    { destruct (kcmp_total (ik_key ik) k1) as [L|[E|G]]; [congruence|auto|congruence]. }
+    subst k1.
+    assert (Hmik : kmem (ik_key ik) ks = true).
+    { apply kmem_in. apply Hincl. left; reflexivity. }
+    assert (Hmem2 : forall x, In x l' -> kmem (ik_key x) ks2 = kmem (ik_key x) ks).
+    { intros x Hx. rewrite <- (Hmem x (or_intror Hx)). unfold kmem at 2. cbn [existsb]. fold (kmem (ik_key x) ks2).
+      rewrite (Hneq' x Hx). reflexivity. }
+    destruct (dr_key old upd ik lo hi) as [isfull upd1] eqn:Ekey.
+    pose proof (dr_key_nodup old upd ik lo hi Hn) as Hn1. rewrite Ekey in Hn1. cbn [snd] in Hn1.
+    destruct (dr_key_spec old upd ik lo hi isfull upd1 Hwfik (Hd ik (or_introl eq_refl)) Ekey) as [K1 [K2 K3]].
+    assert (Hd1 : forall x, In x l' -> tdom (ik_key x) upd1 = false).
+    { intros x Hx. destruct (K1 (ik_key x) (Hneq x Hx)) as [Q _]. rewrite Q. apply Hd. right; exact Hx. }
+    destruct isfull.
+    + destruct (IH ks2 (full ++ [ik_key ik]) upd1 full' upd' Hs' (proj2 Hds) Hwf' Hd1 Hn1 Hrun)
+        as [P1 [P2 [P3 [P4 P5]]]].
+      assert (Hinfull : In (ik_key ik) full') by (apply P2; apply in_or_app; right; left; reflexivity).
+      split; [exact P1|]. split; [intros k Hk; apply P2; apply in_or_app; left; exact Hk|]. split; [|split].
+      * intros k Hk. destruct (P3 k Hk) as [H|[Hm [x [Hx [Hxk Hdead]]]]].
+        -- apply in_app_or in H as [H|[<-|[]]]; [left; exact H|right].
+           split; [exact Hmik|]. exists ik. repeat split; auto. left; reflexivity.
+        -- right. split.
+           ++ eapply kmem_incl; [|exact Hm]. intros y Hy. apply Hincl. right; exact Hy.
+           ++ exists x. split; [right; exact Hx|split; assumption].
+      * intros k Hk. destruct (P4 k (fun x Hx => Hk x (or_intror Hx))) as [Q1 Q2].
+        destruct (K1 k (Hk ik (or_introl eq_refl))) as [R1 R2]. split; congruence.
+      * intros x [<-|Hx].
+        -- destruct (P4 (ik_key ik) Hneq') as [Q1 Q2].
+           destruct K3 as [[-> _]|[T1 T2]].
+           ++ left. split; [rewrite Q1; apply Hd; left; reflexivity|]. intros _ Hnot. contradiction.
+           ++ right. split; [rewrite Q1; exact T1|]. split; [exact Hmik|]. intro t. rewrite Q2. apply T2.
+        -- rewrite <- (Hmem2 x Hx). apply P5; exact Hx.
+    + destruct (IH (ik_key ik :: ks2) full upd1 full' upd' Hs' Hds Hwf' Hd1 Hn1 Hrun)
+        as [P1 [P2 [P3 [P4 P5]]]].
+      split; [exact P1|]. split; [exact P2|]. split; [|split].
+      * intros k Hk. destruct (P3 k Hk) as [H|[Hm [x [Hx [Hxk Hdead]]]]]; [left; exact H|right].
+        split; [eapply kmem_incl; [exact Hincl|exact Hm]|]. exists x. split; [right; exact Hx|split; assumption].
+      * intros k Hk. destruct (P4 k (fun x Hx => Hk x (or_intror Hx))) as [Q1 Q2].
+        destruct (K1 k (Hk ik (or_introl eq_refl))) as [R1 R2]. split; congruence.
+      * intros x [<-|Hx].
+        -- destruct (P4 (ik_key ik) Hneq') as [Q1 Q2].
+           destruct K3 as [[-> K3]|[T1 T2]].
+           ++ left. split; [rewrite Q1; apply Hd; left; reflexivity|]. intros _ _. apply K3. reflexivity.
+           ++ right. split; [rewrite Q1; exact T1|]. split; [exact Hmik|]. intro t. rewrite Q2. apply T2.
+        -- rewrite <- (Hmem x (or_intror Hx)). apply P5; exact Hx.
+Qed.
+
+(** ** the theorem *)
+Definition times_in_range (ix : index) : Prop :=
+  forall ik e, In ik (ix_keys ix) -> In e (ik_ents ik) ->
+    (ix_mintime ix <= emin e)%Z /\ (emax e <= ix_maxtime ix)%Z.
+Definition wf_dr (ix : index) : Prop := wf_index ix /\ Forall wf_ents (ix_keys ix) /\ times_in_range ix.
+
+Lemma in_range_full t : in_i64 t -> in_range t (MinInt64, MaxInt64) = true.
+Proof. unfold in_i64, in_range. cbn [fst snd]. lia. Qed.
+
+Lemma set_tombs_wf ix m : wf_index ix -> wf_index (set_tombs ix m).
+Proof. intros [A B]. split; [exact A|exact B]. Qed.
+
+Lemma full_delete_keys ix full : wf_index ix ->
+  let ix1 := match full with [] => ix | _ => index_delete ix full end in
+  ix_keys ix1 = filter (keep full) (ix_keys ix) /\ ix_tombs ix1 = ix_tombs ix /\ wf_index ix1 /\
+  ix_minkey ix1 = ix_minkey ix /\ ix_maxkey ix1 = ix_maxkey ix /\
+  ix_mintime ix1 = ix_mintime ix /\ ix_maxtime ix1 = ix_maxtime ix.
+Proof.
+  intro Hwf. destruct full as [|f0 fr]; cbv zeta.
+  - split; [symmetry; apply filter_all; intros; reflexivity|]. split; [reflexivity|].
+    split; [exact Hwf|]. repeat split.
+  - destruct (index_delete_static ix (f0 :: fr)) as [A [B [C [D E]]]].
+    split; [apply index_delete_keys; exact Hwf|]. split; [exact E|].
+    split; [apply index_delete_wf; exact Hwf|]. repeat split; assumption.
+Qed.
+
+Lemma delete_range_hides ix ks lo hi k t : wf_dr ix -> in_i64 t ->
+  contains_value (index_delete_range ix ks lo hi) k t
+  = contains_value ix k t && negb (kmem k ks && in_range t (lo, hi)).
+Proof.
+  intros [Hwf [Hents Htr]] Ht. unfold index_delete_range.
+  destruct ks as [|k0 ks0]; [cbn; rewrite andb_true_r; reflexivity|].
+  set (ks := k0 :: ks0). set (sk := sort_keys ks).
+  assert (Hkm : kmem k ks = kmem k sk) by (unfold sk; rewrite kmem_sort; reflexivity).
+  rewrite Hkm.
+  destruct ((lo =? MinInt64)%Z && (hi =? MaxInt64)%Z) eqn:Efull.
+  { apply andb_true_iff in Efull as [E1 E2]. apply Z.eqb_eq in E1, E2. subst lo hi.
+    rewrite index_delete_cv by exact Hwf. rewrite in_range_full by exact Ht. rewrite andb_true_r. reflexivity. }
+  assert (Hcv : contains_value ix k t =
+                match sp_find (ix_keys ix) k with
+                | Some ik => hits ik t && negb (covers (tomb_get k (ix_tombs ix)) t)
+                | None => false end).
+  { rewrite contains_value_spec by exact Hwf. unfold sp_entries. destruct (sp_find (ix_keys ix) k); reflexivity. }
+  destruct ((lo >? ix_maxtime ix)%Z || (hi <? ix_mintime ix)%Z) eqn:Eout.
+  { rewrite Hcv. destruct (sp_find (ix_keys ix) k) as [ik|] eqn:Ef; [|reflexivity].
+    apply sp_find_in in Ef as [Hin Hk].
+    destruct (hits ik t) eqn:Eh; [|reflexivity].
+    assert (in_range t (lo, hi) = false).
+    { unfold hits in Eh. apply existsb_exists in Eh as [e [He Hc]].
+      destruct (Htr ik e Hin He). unfold e_contains in Hc. unfold in_range; cbn [fst snd]. lia. }
+    rewrite H, andb_false_r, andb_true_r. reflexivity. }
+  destruct (dr_walk (ix_tombs ix) (ix_keys ix) sk lo hi [] []) as [full upd] eqn:Ewalk.
+  destruct (dr_walk_spec (ix_tombs ix) lo hi (ix_keys ix) sk [] [] full upd (proj1 Hwf) (sort_keys_sorted ks) Hents
+              (fun _ _ => eq_refl) I Ewalk) as [P1 [_ [P3 [_ P5]]]].
+  destruct (full_delete_keys ix full Hwf) as [Q1 [Q2 [Q3 _]]]. cbv zeta in Q1, Q2, Q3.
+  set (ix1 := match full with [] => ix | _ => index_delete ix full end) in *.
+  rewrite contains_value_spec by (apply set_tombs_wf; exact Q3).
+  cbn [set_tombs ix_keys ix_tombs]. rewrite Q1, Q2. fold (fold_set upd (ix_tombs ix)).
+  rewrite fold_set_get by exact P1. unfold sp_entries. rewrite sp_find_filter by apply Hwf.
+  rewrite Hcv.
+  destruct (sp_find (ix_keys ix) k) as [ik|] eqn:Ef; [|reflexivity].
+  pose proof Ef as Ef'. apply sp_find_in in Ef' as [Hin Hk]. subst k.
+  fold (hits ik t). fold (covers (if tdom (ik_key ik) upd then tomb_get (ik_key ik) upd else tomb_get (ik_key ik) (ix_tombs ix)) t).
+  unfold keep. destruct (kmem (ik_key ik) full) eqn:Ekf; cbn [negb].
+  - (* the key was dropped from the index *)
+    cbn [existsb andb]. apply kmem_in in Ekf. destruct (P3 _ Ekf) as [[]|[Hm [x [Hx [Hxk Hdead]]]]].
+    assert (x = ik).
+    { pose proof (sp_find_sorted _ _ x (proj1 Hwf) Hx Hxk) as A. congruence. }
+    subst x. rewrite Hm. cbn [andb].
+    destruct (hits ik t) eqn:Eh; [|reflexivity]. specialize (Hdead t Ht Eh).
+    destruct (covers (tomb_get (ik_key ik) (ix_tombs ix)) t); cbn [negb andb]; [reflexivity|].
+    rewrite orb_false_r in Hdead. rewrite Hdead. reflexivity.
+  - fold (hits ik t).
+    assert (Hnot : ~ In (ik_key ik) full) by (intro H; apply kmem_in in H; congruence).
+    destruct (P5 ik Hin) as [[T1 T2]|[T1 [T2 T3]]]; rewrite T1.
+    + destruct (hits ik t) eqn:Eh; [|reflexivity]. cbn [andb].
+      destruct (kmem (ik_key ik) sk) eqn:Em; cbn [andb negb]; [|rewrite andb_true_r; reflexivity].
+      rewrite (T2 eq_refl Hnot t Eh). cbn [negb]. rewrite andb_true_r. reflexivity.
+    + rewrite T3, T2. cbn [andb]. rewrite negb_orb, andb_assoc. reflexivity.
+Qed.
+
+(** well-formedness is preserved, so the theorem applies to any sequence of deletes *)
+Lemma index_delete_range_wf ix ks lo hi : wf_dr ix -> wf_dr (index_delete_range ix ks lo hi).
+Proof.
+  intros [Hwf [Hents Htr]].
+  assert (Hsub : forall ix', (forall ik, In ik (ix_keys ix') -> In ik (ix_keys ix)) -> wf_index ix' ->
+                 ix_mintime ix' = ix_mintime ix -> ix_maxtime ix' = ix_maxtime ix -> wf_dr ix').
+  { intros ix' Hin Hw E1 E2. split; [exact Hw|]. split.
+    - apply Forall_forall. intros ik Hik. rewrite Forall_forall in Hents. apply Hents, Hin, Hik.
+    - intros ik e Hik He. rewrite E1, E2. exact (Htr ik e (Hin ik Hik) He). }
+  assert (Hdel : forall ks', wf_dr (index_delete ix ks')).
+  { intro ks'. destruct (index_delete_static ix ks') as [_ [_ [C [D _]]]].
+    apply Hsub; auto; [|apply index_delete_wf; exact Hwf].
+    intros ik Hik. rewrite index_delete_keys in Hik by exact Hwf. apply filter_In in Hik. tauto. }
+  unfold index_delete_range. destruct ks as [|k0 ks0]; [repeat split; assumption|].
+  destruct (_ && _); [apply Hdel|]. destruct (_ || _); [repeat split; assumption|].
+  destruct (dr_walk _ _ _ _ _ _ _) as [full upd].
+  destruct (full_delete_keys ix full Hwf) as [Q1 [Q2 [Q3 [_ [_ [Q6 Q7]]]]]]. cbv zeta in *.
+  apply Hsub; cbn [set_tombs ix_keys ix_mintime ix_maxtime]; auto.
+  - intros ik Hik. rewrite Q1 in Hik. apply filter_In in Hik. tauto.
+  - apply set_tombs_wf; exact Q3.
+Qed.
+
+Lemma index_of_wf_dr all : ksorted all -> Forall wf_ents all -> wf_dr (index_of all).
+Proof.
+  intros Hs Hents. split; [apply index_of_wf; exact Hs|]. split; [exact Hents|].
+  intros ik e Hik He. cbn [index_of ix_keys ix_mintime ix_maxtime] in *.
+  rewrite Forall_forall in Hents. destruct (Hents ik Hik) as [_ Hb]. specialize (Hb e He).
+  destruct (fold_min_spec first_min all MaxInt64) as [_ [A _]].
+  destruct (fold_max_spec last_max all 0%Z) as [_ [B _]]. cbv zeta in *.
+  specialize (A ik Hik). specialize (B ik Hik). lia.
+Qed.
